@@ -271,6 +271,56 @@ func runC09(r *report.Run) {
 			break
 		}
 	}
+	// files whose maps produce hundreds of range points (the preprocessor streams them in chunks)
+	for i := 0; i < r.Pick(4, 40); i++ {
+		mrng := rand.New(rand.NewSource(r.Seed*977 + int64(i)))
+		lines := []string{".example.com,192.0.2.1,a,3600", "Mexample.com,\\115\\141", "8*.example.com,\\145\\143"}
+		for _, mapid := range []string{"", "\\115\\141", "\\145\\143"} {
+			n := []int{49, 60, 130, 400, 75}[mrng.Intn(5)]
+			base := mrng.Intn(200)
+			for j := 0; j < n; j++ {
+				// disjoint, non-adjacent /24s and /48s: every subnet contributes two range points
+				cidr := fmt.Sprintf("10.%d.%d.0/24", (base+j/120)%250, (2*j)%240)
+				if j%3 == 0 {
+					cidr = fmt.Sprintf("2001:db8:%x::/48", 2*(base*7+j))
+				}
+				l := fmt.Sprintf("%%%s,%s", []string{"aa", "bb", "cc"}[j%3], cidr)
+				if mapid != "" {
+					l += "," + mapid
+				}
+				lines = append(lines, l)
+			}
+		}
+		mrng.Shuffle(len(lines), func(a, b int) { lines[a], lines[b] = lines[b], lines[a] })
+		// drop accidental duplicates (one subnet is never declared twice with different locations)
+		seenNet := map[string]bool{}
+		var uniq []string
+		for _, l := range lines {
+			if strings.HasPrefix(l, "%") {
+				f := strings.Split(l, ",")
+				k := f[1]
+				if len(f) > 2 {
+					k += "," + f[2]
+				}
+				if seenNet[k] {
+					continue
+				}
+				seenNet[k] = true
+			}
+			uniq = append(uniq, l)
+		}
+		text := []byte(strings.Join(uniq, "\n") + "\n")
+		for _, v2 := range []bool{false, true} {
+			msg, keys := c09File(text, v2)
+			r.Eval(1)
+			r.Count("files_with_over_100_range_points_per_map", 1)
+			r.Count("file_keys_compared", int64(keys))
+			r.Nontrivial(fmt.Sprintf("manysubnets-%d-%v", i, v2))
+			if msg != "" {
+				r.Violation("", fmt.Sprintf("file with %d subnet lines, v2=%v: %s", len(uniq)-3, v2, msg), c09Case{File: string(text), V2: v2})
+			}
+		}
+	}
 	for l := range seen {
 		if r.SampleN() >= 6 {
 			break
